@@ -12,7 +12,7 @@ TECHNIQUE = "reference-model monitor: maximal-munch tokenizer + include splicer 
 FLAVOURS = [("asan", "generated"), ("asan", "committed")]
 ALPHABET = "IFNDOPa01 \n:=!<>$#/\""
 RULE = ("all strings up to length L over the %d scanner-significant characters %r (exhaustive), keyword soup with every "
-        "documented spelling and near-misses, mutated programs, multi-file include layouts, byte noise (NUL, 0x80-0xFF, CR, FF); "
+        "documented spelling and near-misses, mutated programs, multi-file include layouts, files of up to 2^24 lines (tokens on lines beyond 2^15, 2^16, 2^23, 2^24, in main and included files), byte noise (NUL, 0x80-0xFF, CR, FF); "
         "each input is scanned by the flex-generated AND the committed scanner and compared token by token "
         "(kind, text, file, line) with the reference; non-trivial = at least one token; distinct by SHA-1 of the file map"
         % (len(ALPHABET), ALPHABET))
@@ -41,6 +41,8 @@ def plan(tier, seed):
     nsoup = 20000 if tier == "quick" else 400000
     for i in range(nsoup // 2000):
         specs.append({"kind": "soup", "chunk": i, "n": 2000, "seed": seed})
+    for i in range(2 if tier == "quick" else 16):
+        specs.append({"kind": "far", "chunk": i, "seed": seed})
     nprog = 1500 if tier == "quick" else 30000
     for i in range(nprog // 250):
         specs.append({"kind": "prog", "chunk": i, "n": 250, "seed": seed})
@@ -83,6 +85,13 @@ def gen_cases(spec):
         for _ in range(spec["n"]):
             s = "".join(r.choice(words) + r.choice(seps) for _ in range(r.randint(1, 10)))
             out.append(({"main": s}, "main"))
+    elif k == "far":
+        # tokens standing on lines whose number needs more than 15, 16, 23, 24 bits (up to 16 MiB of filler lines)
+        r = common.rng(spec["seed"], "C14far", spec["chunk"])
+        ths = layouts.FAR_THRESHOLDS[:2] if spec["chunk"] % 2 == 0 else layouts.FAR_THRESHOLDS[2:]
+        for t in ths + ths[:1]:
+            lines = programs.to_lines(programs.Gen(r).program(), programs.Speller(r))
+            out.append(layouts.far_program(r, lines, [t]))
     elif k == "prog":
         r = common.rng(spec["seed"], "C14prog", spec["chunk"])
         for i in range(spec["n"]):
@@ -190,7 +199,9 @@ def work(spec):
                 part["stats"]["multi-file-inputs"] += 1
             if nt >= 1:
                 part["nontrivial"].append(harness.chash([files, main]))
-            if len(part["samples"]) < 1 and nt >= 3 and spec["kind"] != "exh":
+            if spec["kind"] == "far":
+                part["stats"]["max-line-number-compared"] = max(part["stats"]["max-line-number-compared"], max(t[3] for t in obs["generated"]["toks"]))
+            if len(part["samples"]) < 1 and nt >= 3 and spec["kind"] not in ("exh", "far"):
                 part["samples"].append({"files": files, "tokens": obs["generated"]["toks"][:12]})
     return part
 
